@@ -76,6 +76,21 @@ def cases(rng, tier):
             yield Case(program=f"({body}) (ㄱㅇㄱ ㅎ) ㅅㄷㅎㄷ", variants=(exc,), tag='deep-force', stdin="x\n")
             yield Case(program=f"({body}) ㄱㅅㅎㄴ", tag='deep-return', stdin="x\n")
             yield Case(program=body, tag='deep-uncaught', stdin="x\n")
+        # a fault that has already been raised and caught once is raised again — from the cache — each time the
+        # same (shared) value is evaluated again, and is caught again by whichever ㅅㄷ is evaluating it then
+        ID = "(ㄱㅇㄱ ㅎ)"
+        for _ in range(12 if tier == 'quick' else 40):
+            pl = payload(rng, g)
+            exc = render(bi('ㄷㅂ', *pl))
+            body = wrap_deep(rng, f"{exc} ㄷㅈㅎㄴ", rng.randint(0, 3))
+            X = "ㄱㅇㄱ"
+            X1 = "ㄱㅇㄴ"           # the same parameter seen from inside a handler
+            yield Case(program=f"({body}) ({X} ({X1} (ㄱㅇㄱ ㅎ) ㅅㄷㅎㄷ ㅎ) ㅅㄷㅎㄷ ㅎ) ㅎㄴ", variants=(exc,), tag='retry-in-handler', stdin="x\n")
+            yield Case(program=f"({body}) (({X} {ID} ㅅㄷㅎㄷ) ({X} {ID} ㅅㄷㅎㄷ) ({X} {ID} ㅅㄷㅎㄷ) ㅁㄹㅎㄹ ㅎ) ㅎㄴ",
+                       variants=(f"{exc} {exc} {exc} ㅁㄹㅎㄹ",), tag='retry-sequence', stdin="x\n")
+            yield Case(program=f"({body}) ({X} (({X1} {X1} ㅁㄹㅎㄷ) {ID} ㅅㄷㅎㄷ ㅎ) ㅅㄷㅎㄷ ㅎ) ㅎㄴ", variants=(exc,), tag='retry-in-list', stdin="x\n")
+            yield Case(program=f"({body}) ((({X} (ㄱ ㅎ) ㅅㄷㅎㄷ) {X} ㅁㄹㅎㄷ) {ID} ㅅㄷㅎㄷ ㅎ) ㅎㄴ", variants=(exc,), tag='retry-after-swallow', stdin="x\n")
+            yield Case(program=f"({body}) ({X} ({X1} ㅎ) ㅅㄷㅎㄷ ㅎ) ㅎㄴ", variants=(body,), tag='retry-uncaught', stdin="x\n")
         # built-in failures: contents begin [5, class]
         for prog in ["ㄴ ㄱ ㄴㄴㅎㄷ", "ㄴ ㅁㅈㅎㄱ ㄷㅎㄷ", "ㄹ ㅇㄱ", "ㅈㅈㅈㅈㅈ ㅎㄱ", "ㄱ ㄴ ㅁㄹㅎㄷ ㄷ ㅎㄴ".replace("ㄱ ㄴ ㅁㄹㅎㄷ ㄷ ㅎㄴ", "ㄷ (ㄱ ㄴ ㅁㄹㅎㄷ) ㅎㄴ"),
                      "ㄴ (ㅅㅈㅎㄱ) ㅎㄴ", "ㅁㅈㅎㄱ ㅈㅅㅎㄴ", "ㄴ ㄷ ㄱ ㅅㅎㄹ"]:
@@ -97,7 +112,7 @@ def cases(rng, tier):
 SPEC = {
     'lean': ['C10'],
     'cases': cases,
-    'stream': 'C10 planted-fault stream',
+    'stream': 'C10 planted-fault stream (incl. retry families: a cached failure evaluated again under another ㅅㄷ)',
     'rule': 'faults buried 1–4 levels deep in containers built by ㅁㄹ / ㄷㅂ / ㅅㅈ / ㅁㄷ / ㄷ / ㅂㅈ (so that intermediate containers are already strict) must be raised inside ㅅㄷ / ㄱㅅ; 52 strict operand positions (every built-in family, callables, argument position, callee, I/O constructors, '
             'module functions, nested / closure / returned-closure contexts) × random nested exception payloads: the '
             'uncaught program must end in exactly that exception (contents + location, vs the model); wrapped in ㅅㄷ with '
